@@ -23,13 +23,18 @@ SelectAccepts(c) ==
 (* part "decode": one declared media type with schema S (or S2 / the text schema) *)
 TInt == [type |-> "integer"]
 TStr == [type |-> "string"]
-Props == [pk |-> <<"l", "ls", "n", "ro", "s">>,
-          ps |-> <<[type |-> "array", items |-> TInt], [type |-> "array", items |-> TStr], TInt, [type |-> "string", readOnly |-> TRUE], TStr>>]
+(* u1 / u3: properties that carry no "type" of their own (a composition, a bare enum) *)
+Props == [pk |-> <<"l", "ls", "n", "ro", "s", "u1", "u3">>,
+          ps |-> <<[type |-> "array", items |-> TInt], [type |-> "array", items |-> TStr], TInt, [type |-> "string", readOnly |-> TRUE], TStr,
+                   [allOf |-> <<TInt>>], [enum |-> <<Str(<<"a">>), Str(<<"b">>)>>]>>]
+(* S3: the read-only property also has a default (the server's value): a request still need not -- must not -- carry it *)
+PropsRODefault == [Props EXCEPT !.ps[4] = [type |-> "string", readOnly |-> TRUE, default |-> Str(<<"d">>)]]
+S3 == [type |-> "object", required |-> <<"ro">>] @@ PropsRODefault
 S1 == [type |-> "object", required |-> <<"n", "ro">>] @@ Props     \* n and the read-only ro are required
 S2 == [type |-> "object", required |-> <<"ro">>] @@ Props          \* nothing the client may send is required
 TextSchema == [type |-> "string", minLength |-> 2]
 
-SchemaOf(c) == IF c.family = "text" THEN TextSchema ELSE IF c.schema = "S1" THEN S1 ELSE S2
+SchemaOf(c) == IF c.family = "text" THEN TextSchema ELSE IF c.schema = "S1" THEN S1 ELSE IF c.schema = "S3" THEN S3 ELSE S2
 
 DecodeAccepts(c) == Valid(SchemaOf(c), c.v, IF c.excludeRO THEN "asreq_noro" ELSE "asreq")
 
